@@ -22,9 +22,9 @@ type VfEnvT struct {
 	WsWrites    [][]byte
 	WsWriteType []websocket.MessageType
 	// http client
-	HttpDoErr   error
-	HttpReqs    int
-	HttpNewErr  error
+	HttpDoErr  error
+	HttpReqs   int
+	HttpNewErr error
 }
 
 var VfEnv = &VfEnvT{}
